@@ -17,6 +17,7 @@ from __future__ import annotations
 import ast
 
 from .. import cfg
+from .. import inline
 from ..facts import call_name, dotted, kwarg, norm
 from ..linters import Linters
 from ..util import Implication, func_paths, is_call_named, is_caught
@@ -128,19 +129,21 @@ def check(run, ctx):
     M4 = run.rule("M4", "builders report the passed line and interpolate the tested value in the message", floor=3)
     for lang, b in BUILDERS.items():
         f = repo.func(f"{PKG}.violation_builder.ViolationBuilder.{b}")
-        sk = next((c for c in ast.walk(f.node) if isinstance(c, ast.Call) and call_name(c) in ("Violation", "build_from_params")), None)
+        flat = list(inline.flat_nodes(repo, f))   # the builder may delegate to a private helper
+        sk = next((c for c in flat if isinstance(c, ast.Call) and call_name(c) in ("Violation", "build_from_params")), None)
         run.require(sk is not None, f"{b}: no violation construction")
         line, msg = kwarg(sk, "line"), kwarg(sk, "message")
         msg_names = set()
         src = msg
         if isinstance(msg, ast.Name):
-            asg = [n for n in ast.walk(f.node) if isinstance(n, ast.Assign) and any(isinstance(t, ast.Name) and t.id == msg.id for t in n.targets)]
+            asg = [n for n in flat if isinstance(n, ast.Assign) and any(isinstance(t, ast.Name) and t.id == msg.id for t in n.targets)]
             src = asg[0].value if asg else msg
         msg_names = {n.id for n in ast.walk(src) if isinstance(n, ast.Name)}
         # one level of local renderings: number = _format_number(value)
-        for n in ast.walk(f.node):
-            if isinstance(n, ast.Assign) and any(isinstance(t, ast.Name) and t.id in msg_names for t in n.targets):
-                msg_names |= {x.id for x in ast.walk(n.value) if isinstance(x, ast.Name)}
+        for _ in range(2):
+            for n in flat:
+                if isinstance(n, ast.Assign) and any(isinstance(t, ast.Name) and t.id in msg_names for t in n.targets):
+                    msg_names |= {x.id for x in ast.walk(n.value) if isinstance(x, ast.Name)}
         if isinstance(line, ast.Name) and line.id == "line" and "value" in msg_names:
             run.ok(M4, b, "line=line, message interpolates value")
         else:
